@@ -179,6 +179,24 @@ func newWorld(sb *signing.FakeBackend, mag int) *world {
 	return w
 }
 
+// wordWorld: magnitude 3 - a multiplier that puts the table's largest entry into the lower part of [2^(k-1), 2^k), k sweeping 40..66 with the case
+// index, i.e. around the places where 64-bit shortcuts of p*65535 or of the total would wrap (raw Filecoin powers are of this size).
+func wordWorld(sb *signing.FakeBackend, t []aEntry, idx int) *world {
+	pmax := int64(1)
+	for _, e := range t {
+		if e.P > pmax {
+			pmax = e.P
+		}
+	}
+	k := 40 + idx%27
+	u := int64((uint64(idx)*2654435761)>>7) % 600 // the largest entry lands at 2^(k-1) * (1 + u/1000), u in [0, 0.6)
+	m := new(big.Int).Lsh(big.NewInt(1), uint(k-1))
+	m.Mul(m, big.NewInt(1000+u))
+	m.Quo(m, big.NewInt(1000*pmax))
+	m.Add(m, big.NewInt(1))
+	return &world{sb: sb, mag: 3, m: m}
+}
+
 func (w *world) power(p int64) gpbft.StoragePower {
 	return gpbft.StoragePower{Int: new(big.Int).Mul(big.NewInt(p), w.m)}
 }
@@ -1119,6 +1137,12 @@ func TestValRows(t *testing.T) {
 	for i := 0; i < nrand; i++ {
 		w := worlds[i%2]
 		t0 := randTable(rng)
+		if i%4 == 3 {
+			if (i/4)%3 != 0 { // a member holding more than half of the power: the total stays within one bit of the largest entry
+				t0 = []aEntry{{1, 20 + int64(rng.Intn(20)), 1}, {2, 1 + int64(rng.Intn(2)), 1}, {3, 1 + int64(rng.Intn(2)), 1}}
+			}
+			w = wordWorld(sb, t0, i/4)
+		}
 		first := int64(rng.Intn(4))
 		if i%17 == 0 {
 			first = 1<<29 + int64(rng.Intn(100))
